@@ -77,6 +77,16 @@ func WithNames(t *rapid.T, s *Spec) {
 			s.NTs[i].Name += fmt.Sprint(i)
 		}
 	}
+	// "without %start the start symbol must be named start": sometimes make it so
+	if rapid.IntRange(0, 3).Draw(t, "defaultstart") == 0 {
+		for i := range s.NTs {
+			if s.NTs[i].Name == "start" {
+				s.NTs[i].Name = "start_"
+			}
+		}
+		s.NTs[s.Start].Name = "start"
+		s.OmitStart = rapid.Bool().Draw(t, "omitstart")
+	}
 }
 
 // WithDecls decorates the declarations: union fields, value tags, explicit
